@@ -14,10 +14,11 @@ def access_key(op: dict[str, Any]) -> list[Any]:
     """What identifies the fault-free way an op reads its text (reference key)."""
     sel = op.get("select")
     selk = None if sel is None else [sel.get("form"), [list(p) for p in sel["pairs"]]]  # faults excluded
+    extra = ["logging-off"] if op.get("logging_off") else []
     if op.get("via") == "path":
-        return [op["text"], selk, "path"]
+        return [op["text"], selk, "path"] + extra
     return [op["text"], selk, "file", op.get("reader") or "stringio", op.get("newline"),
-            op.get("encoding") or "utf-8"]
+            op.get("encoding") or "utf-8"] + extra
 
 
 def stored_name(op: dict[str, Any], name: str) -> str:
@@ -33,6 +34,21 @@ def stored_name(op: dict[str, Any], name: str) -> str:
 
 def do_parse(fs: simfs.SimFS, op: dict[str, Any], data: bytes, name: str,
              faults: bool = True) -> Any:
+    if op.get("logging_off"):
+        # the application has switched logging off for this call (process-global: planned only
+        # for runs with a single client)
+        import logging
+
+        logging.disable(logging.CRITICAL)
+        try:
+            return _do_parse(fs, op, data, name, faults)
+        finally:
+            logging.disable(logging.NOTSET)
+    return _do_parse(fs, op, data, name, faults)
+
+
+def _do_parse(fs: simfs.SimFS, op: dict[str, Any], data: bytes, name: str,
+              faults: bool = True) -> Any:
     from chartparse.chart import Chart
 
     selp = op.get("select")
